@@ -65,6 +65,8 @@ typedef struct pmc_spec
     const char* focus_sites;    // F-site: POSIX extended regex over the inlined call chain of each
                                 // atomic-hook call site ("func@file:line <- ..."); NULL = none
     const char* focus_kinds;    // subset of "lsrc" (load, store, rmw, cas) for F-site; NULL = all
+    const char* focus_plain;    // F-site regex for plain (non-atomic) access sites; only translation units
+                                // built with memory-access instrumentation have such sites; NULL = none
 } pmc_spec;
 
 typedef struct pmc_config
